@@ -584,6 +584,12 @@ class ExprMixin:
         if cont.kind == 'val' and cont.ty is not None and cont.ty.kind in ('list', 'dict'):
             a = self.as_ref(cont, st, 'in')
             cont = sv_ref(a, NonOpt(cont.ty))
+        if cont.kind == 'val' and (cont.ty is None or cont.ty.kind == 'val'):
+            # dynamically typed container: a dict (membership among the keys) or a list; anything else -> TypeError exit
+            isd = z3.And(is_VRef(cont.t), st.h.cls(v_a(cont.t)) == CLS_DICT)
+            isl = z3.And(is_VRef(cont.t), st.h.cls(v_a(cont.t)) == CLS_LIST)
+            self.side_raise(st, 'TypeError', z3.Not(z3.Or(isd, isl)), '`in` on a non-container')
+            return z3.If(isd, st.h.has(v_a(cont.t), to_val(x)), st.h.bag(v_a(cont.t), to_val(x)) > 0)
         if cont.kind == 'ref' and cont.cls == 'list':
             return self.list_contains(cont.t, x, st)
         if cont.kind == 'ref' and cont.cls in ('dict', 'set'):
@@ -606,7 +612,16 @@ class ExprMixin:
                 self.list_extend(r.t, b.t, st)
                 return r
         if isinstance(op, ast.Mod) and a.kind == 'str':
-            return SV('str', self.fresh(Str, 'fmt'))        # %-formatting: text of messages is dropped
+            lit = self.const_str(a)
+            if lit is not None and b.kind == 'tuple' and lit.count('%') == lit.count('%s') == len(b.elts) and all(x.kind == 'str' for x in b.elts):
+                # '<text>%s<text>%s...' % (s1, s2, ...) with string arguments: the concatenation (the value may matter, e.g. as a key)
+                parts = lit.split('%s')
+                t = str_const(parts[0])
+                for piece, x in zip(parts[1:], b.elts):
+                    t = concat(t, x.t)
+                    t = concat(t, str_const(piece))
+                return SV('str', t)
+            return SV('str', self.fresh(Str, 'fmt'))        # other %-formatting: only used for messages, whose text is dropped
         if isinstance(op, (ast.Add, ast.Sub, ast.Mult)):
             ka, ta = self.as_num(a, st)
             kb, tb = self.as_num(b, st)
